@@ -60,6 +60,33 @@ def r03_1(run):
             txt = src(arg) if arg is not None else ''
             run.ob('R03.1', cl, e, 'commands fail with TorDisconnectError', 'TorDisconnectError' in txt, slot='errback-type',
                    message='outstanding commands are failed with %s, not a TorDisconnectError' % txt[:80])
+    # inside the loop: a command whose Deferred has not fired yet is failed, whatever else is true of it (no callbacks
+    # attached yet, a QUIT, a clean close ...): the only test that may skip the errback is "already called"
+    for lp, dname, errs in loops:
+        if dname is None:
+            continue
+        first = [n for n in g.live if n.kind == 'iter' and n.ast is lp]
+        if not first:
+            continue
+
+        def hook(node, val, trail, dname=dname):
+            a = node.ast
+            neg = False
+            while isinstance(a, ast.UnaryOp) and isinstance(a.op, ast.Not):
+                a, neg = a.operand, not neg
+            if dotted(a) == dname + '.called':
+                return neg          # called is False
+            return None
+        body_start = [s_ for lab, s_ in first[0].succ if lab == 'body']
+        for p_ in g.paths(start=body_start[0], stop=lambda n: n is first[0], eval_hook=hook, loop_bound=1, follow_exc=False) if body_start else []:
+            run.paths_enumerated += 1
+            if p_.exit == 'raise':
+                continue
+            ne = sum(1 for n, _ in p_.steps if n.kind == 'stmt' for a in node_asts(n) if isinstance(a, ast.Call) and callee_attr(a) == 'errback' and dotted(receiver(a)) == dname)
+            nc = sum(1 for n, _ in p_.steps if n.kind == 'stmt' for a in node_asts(n) if isinstance(a, ast.Call) and callee_attr(a) == 'callback' and dotted(receiver(a)) == dname)
+            run.ob('R03.1', cl, lp, 'every command whose Deferred has not fired is failed exactly once', ne == 1 and nc == 0, slot='loop-fails-each',
+                   message='the errback loop has a path on which an unanswered command gets %d errback(s) and %d callback(s): %s' % (ne, nc, p_.describe(6)),
+                   path=p_.describe(8))
     run.ob('R03.1', cl, cl.node, 'the in-flight command is among those failed', cover_cmd, slot='covers-inflight',
            message='connectionLost does not errback the in-flight command (self.command)')
     run.ob('R03.1', cl, cl.node, 'all queued commands are among those failed', cover_queue, slot='covers-queue',
@@ -278,6 +305,7 @@ RULES = [
 from ..selftest import M  # noqa: E402
 F = 'txtorcon/torcontrolprotocol.py'
 MUTANTS = [
+    M('errback-only-if-observed', F, "            if not d.called:\n                d.errback(", "            if not d.called and d.callbacks:\n                d.errback(", ['R03.1']),
     M('queue-not-emptied', F, "        self.defer = None\n        self.commands = []\n", "        self.defer = None\n", ['R03.1']),
     M('only-inflight-failed', F, "outstanding = [self.command] + self.commands if self.command else self.commands", "outstanding = [self.command] if self.command else []", ['R03.1']),
     M('inflight-forgotten', F, "outstanding = [self.command] + self.commands if self.command else self.commands", "outstanding = self.commands", ['R03.1']),
